@@ -14,12 +14,14 @@
 package main
 
 import (
+	"bytes"
 	"encoding/json"
 	"flag"
 	"fmt"
 	"math/big"
 	"math/rand"
 	"os"
+	"sort"
 	"strings"
 	"time"
 
@@ -492,6 +494,12 @@ func (h *hist) genTxs() []*txRec {
 			}
 		case 7, 8:
 			online := h.rnd.Intn(3) != 0
+			if h.cfg.heavy && h.rnd.Intn(2) == 0 {
+				// pool owners (the addresses delegations concentrate on) come online: an online pool is what proposes, earns
+				// and - at an epoch end - keeps its registry entry when the owner itself loses validation
+				from = 1 + h.rnd.Intn(2)
+				online = true
+			}
 			add(h.mkTx(from, types.OnlineStatusTx, nil, nil, attachments.CreateOnlineStatusAttachment(online), nadj, eadj, pend), counts)
 		case 9:
 			// delegations concentrate on two pools so that pools with several members (and departures from them) occur
@@ -672,6 +680,25 @@ func (h *hist) block() bool {
 		h.probeProposals(1500)
 	}
 	el := h.eligible()
+	if len(el) == 0 && h.ref.n.App.ValidatorsCache.OnlineSize() > 0 {
+		// the only online identities are ones without a node of their own in this scenario: a stand-in node with the key
+		// of the first of them is booted over a copy of the reference database for this one proposal (otherwise the
+		// history would degenerate into empty blocks for good)
+		vc := h.ref.n.App.ValidatorsCache
+		for k := range h.w.Addrs {
+			if _, has := h.props[k]; !has && vc.IsOnlineIdentity(h.w.Addrs[k]) {
+				n := h.ref.n.Clone(k)
+				if n.BootErr != nil {
+					panic(n.BootErr)
+				}
+				st := &replica{name: fmt.Sprintf("standin-k%d", k), n: n, kind: "line"}
+				h.attachCeremony(st)
+				defer n.Close()
+				el = []*replica{st}
+				break
+			}
+		}
+	}
 	noProposer := len(el) == 0
 	if noProposer {
 		// none of the proposer-capable replicas is eligible on this state: the network produces an empty block
@@ -697,6 +724,9 @@ func (h *hist) block() bool {
 		// answers recorded in blocks) are handed to every replica's ceremony before anybody evaluates
 		h.fsCatchup("before-epoch")
 		h.injectEpoch(height)
+		if _, own := h.props[prop.n.Key]; !own || h.props[prop.n.Key] != prop {
+			h.pendingEpoch(prop) // a stand-in proposer is not among the replicas the results were handed to
+		}
 	}
 	var fsSigners []int
 	fsNeed := 0
@@ -1167,6 +1197,46 @@ func (h *hist) injectEpoch(height uint64) {
 		o.ShortQualifiedFlipsCount = 6
 		outs = append(outs, o)
 	})
+	if h.cfg.heavy && !h.cfg.relQuiet && h.cfg.graph == nil {
+		// pools at an epoch end: every second time a validated pool OWNER loses its validation while one of its
+		// delegators keeps it (the owner's registry entry then becomes {not validated, still online}: the one stored
+		// entry that is updated rather than deleted)
+		idx := map[common.Address]int{}
+		for i, o := range outs {
+			idx[o.Addr] = i
+		}
+		owners := map[common.Address][]int{}
+		for i, o := range outs {
+			if o.Delegatee != nil && state.IdentityState(o.PrevState).NewbieOrBetter() {
+				owners[*o.Delegatee] = append(owners[*o.Delegatee], i)
+			}
+		}
+		var keys []common.Address
+		for a := range owners {
+			keys = append(keys, a)
+		}
+		sort.Slice(keys, func(i, j int) bool { return bytes.Compare(keys[i][:], keys[j][:]) < 0 })
+		for _, a := range keys {
+			oi, ok := idx[a]
+			if !ok || a == h.w.Addrs[0] || !state.IdentityState(outs[oi].PrevState).NewbieOrBetter() {
+				continue
+			}
+			// an online owner always, an offline one every second time
+			if !h.ref.n.App.ValidatorsCache.IsOnlineIdentity(a) && h.rnd.Intn(2) != 0 {
+				continue
+			}
+			lost := state.Suspended
+			if state.IdentityState(outs[oi].PrevState) == state.Newbie {
+				lost = state.Killed
+			}
+			outs[oi].State, outs[oi].Missed, outs[oi].Participated = uint8(lost), true, false
+			di := owners[a][h.rnd.Intn(len(owners[a]))]
+			outs[di].State, outs[di].Missed, outs[di].Participated = outs[di].PrevState, false, true
+			h.out.Emit(tr.M{"ev": "EpochPoolOwnerLoses", "hid": h.id, "h": height, "owner": h.w.Name(a), "online": h.ref.n.App.ValidatorsCache.IsOnlineIdentity(a),
+				"delegators": len(owners[a])})
+		}
+		h.out.Emit(tr.M{"ev": "EpochPools", "hid": h.id, "h": height, "pools": len(keys)})
+	}
 	epoch, shards := s.Epoch(), int(s.ShardsNum())
 	h.pendingEpoch = func(r *replica) {
 		cp := make([]ceremony.VerifOutcome, len(outs))
